@@ -35,3 +35,51 @@ Proof.
   unfold obs_eqb in Hs. apply bool_decide_eq_true in Hs. rewrite <- Hs. unfold sp_step_obs.
   by destruct (sp_step _ (r_q r)).
 Qed.
+
+(* ---------- NickInfo is a last-writer-wins register on one nick ---------- *)
+Lemma ni_overwrite s n i h r i' h' r' a : ts_nicks s !! n = Some a ->
+  sp_NickInfo (fst (sp_NickInfo s n i h r)) n i' h' r' = sp_NickInfo s n i' h' r'.
+Proof.
+  intros H. unfold sp_NickInfo. rewrite H. simpl. rewrite lookup_insert. simpl. rewrite insert_insert. done.
+Qed.
+Lemma ni_keeps_tracked s n i h r a : ts_nicks s !! n = Some a ->
+  exists a', ts_nicks (fst (sp_NickInfo s n i h r)) !! n = Some a'.
+Proof. intros H. unfold sp_NickInfo. rewrite H. simpl. rewrite lookup_insert. eauto. Qed.
+
+(* what a sequential run of NickInfo n / GetNick n calls returns: [cur] = the state a GetNick sees *)
+Fixpoint ni_expect (s0 cur : tstate) (ops : list op) : list result :=
+  match ops with
+  | [] => []
+  | o :: ops' => if is_ni o then snd (sp_step s0 o) :: ni_expect s0 (fst (sp_step s0 o)) ops'
+                 else snd (sp_step cur o) :: ni_expect s0 cur ops'
+  end.
+
+Lemma ni_run s0 n a0 : ts_nicks s0 !! n = Some a0 -> forall ops cur,
+  Forall (fun o => ni_shape n o = true) ops ->
+  (exists a, ts_nicks cur !! n = Some a) ->
+  (forall i h r, sp_NickInfo cur n i h r = sp_NickInfo s0 n i h r) ->
+  snd (sp_run cur ops) = ni_expect s0 cur ops.
+Proof.
+  intros H0. induction ops as [|o ops IH]; intros cur F (a & Ha) P; [done|].
+  inversion F as [|? ? Fo Fops]; subst. simpl.
+  destruct o; simpl in Fo; try done; apply bool_decide_eq_true in Fo; subst; simpl.
+  - (* GetNick: the state does not move *)
+    unfold with_res. simpl. rewrite <- (IH cur Fops); [|eauto|done]. by destruct (sp_run cur ops).
+  - (* NickInfo: behaves as from the start state, and the next reader sees its value *)
+    unfold with_res. simpl. rewrite P.
+    rewrite <- (IH (fst (sp_NickInfo s0 n ident host rname)) Fops).
+    + by destruct (sp_run _ ops).
+    + eapply ni_keeps_tracked; eauto.
+    + intros i h r. eapply ni_overwrite; eauto.
+Qed.
+
+Theorem ni_sequential s0 n a0 ops : ts_nicks s0 !! n = Some a0 ->
+  Forall (fun o => ni_shape n o = true) ops -> snd (sp_run s0 ops) = ni_expect s0 s0 ops.
+Proof. intros H F. eapply ni_run; eauto. Qed.
+
+(* a NickInfo result carries exactly the call's own three strings *)
+Lemma ni_result_own s n a i h r : ts_nicks s !! n = Some a ->
+  exists sn, snd (sp_NickInfo s n i h r) = Some sn /\ sn_nick sn = n /\ sn_ident sn = i /\ sn_host sn = h /\ sn_name sn = r.
+Proof.
+  intros H. unfold sp_NickInfo. rewrite H. simpl. unfold nick_snapshot. simpl. rewrite lookup_insert. eauto 10.
+Qed.
